@@ -101,7 +101,7 @@ def gen(rng, kind):
         if rng.random() < 0.2:
             # a twin built from the same segments that differs in ONE segment name only: not equal (its description differs)
             twin = regs.B()
-            k = rng.randrange(sum(1 for o in prog if o[0] == "BInsert" and o[1] == r))
+            k = rng.randrange(sum(1 for o in prog if o[0] == "BInsert" and o[1] == r and o[3] != "waituntil"))
             j = 0
             for o in list(prog):
                 if o[0] in ("BInsert", "BSetSR", "BSetMarker") and o[1] == r:
